@@ -102,6 +102,46 @@ class ClassInfo:
         return "<class %s>" % self.name
 
 
+def canon_eq(a: str, b: str, op="==") -> str:
+    """canonical spelling of a symmetric comparison: the textually larger operand first (this happens to be the
+    spelling the package uses: `decisions == arm`, `len(x) == 1`)"""
+    x, y = (a, b) if a >= b else (b, a)
+    return "%s %s %s" % (x, op, y)
+
+
+class _Canon(ast.NodeTransformer):
+    """Orientation-free form of the analysed tree, applied in place right after parsing (positions are kept):
+    `a == b` / `a != b` with the textually larger operand first; `if not T: A else: B` as `if T: B else: A`
+    (also for conditional expressions). The idiom rules then need to know one spelling only."""
+
+    def visit_Compare(self, node):
+        self.generic_visit(node)
+        if len(node.ops) == 1 and isinstance(node.ops[0], (ast.Eq, ast.NotEq)):
+            l, r = node.left, node.comparators[0]
+            if ast.unparse(l) < ast.unparse(r):
+                node.left, node.comparators = r, [l]
+        return node
+
+    def visit_If(self, node):
+        self.generic_visit(node)
+        if node.orelse and isinstance(node.test, ast.UnaryOp) and isinstance(node.test.op, ast.Not):
+            node.test = node.test.operand
+            node.body, node.orelse = node.orelse, node.body
+        return node
+
+    def visit_IfExp(self, node):
+        self.generic_visit(node)
+        if isinstance(node.test, ast.UnaryOp) and isinstance(node.test.op, ast.Not):
+            node.test = node.test.operand
+            node.body, node.orelse = node.orelse, node.body
+        return node
+
+
+def canonicalise(tree):
+    _Canon().visit(tree)
+    return tree
+
+
 class ModuleInfo:
     def __init__(self, name, path, source):
         self.name = name
@@ -112,6 +152,7 @@ class ModuleInfo:
             self.tree = ast.parse(source, filename=path)
         except SyntaxError as e:
             raise AnalysisError("syntax error in %s: %s" % (path, e))
+        canonicalise(self.tree)
         self.imports: Dict[str, tuple] = {}     # local name -> (module, symbol or None)
         self.classes: Dict[str, ClassInfo] = {}
         self.functions: Dict[str, FunctionInfo] = {}
